@@ -197,6 +197,9 @@ where
     let rt = tokio::runtime::Builder::new_current_thread()
         .enable_all()
         .start_paused(true)
+        // the future given to block_on is otherwise polled only once per 61 task polls: operations awaited in it
+        // would never interleave with the chains of wake-ups between spawned tasks
+        .event_interval(1)
         .rng_seed(tokio::runtime::RngSeed::from_bytes(&bytes))
         .build()
         .expect("runtime");
